@@ -164,6 +164,19 @@ TABLE = {
             "reject unknown ids and track known ones; every waiting loop of a cancellable/forcible instruction must read "
             "the flag (directly or via its helper); Pause/Hold.cancel must run the inverse command.",
             "Decides the reject-or-apply structure; tick-exact timing of the effect is not decided."),
+    "C13": ("error-discipline rules on Engine.tick (handler completeness, must-call), failure-marking rules on the interpreter "
+            "and command manager, and a class-hierarchy-resolved exception-escape audit of the unprotected part of the tick",
+            "The interpreter tick and the command tick must sit in try bodies with a catch-all whose every handler reaches "
+            "set_error_state on all paths; set_error_state must write Method Status=Error, System State=Paused and the pause flag "
+            "on all paths and end in the exception-swallowing listener fan-out (every EventEmitter.emit_* loop is checked); the "
+            "visitor wrapper must mark the node failed and record the error, PInterpreter.tick must raise an InterpretationError "
+            "whenever an error is recorded, command failures must be marked failed and re-raised; every explicit raise/assert "
+            "that can leave a call in the unprotected part of Engine.tick (CHA-resolved, depth 4/6) must be a justified "
+            "(exception, function) pair; Stop is not refused while Paused and a successful merge clears the error state. These "
+            "hold for every method text and schedule because they are facts about all paths of the tick.",
+            "Decides the error discipline, not the absence of exceptions from partial builtins on runtime values, user UOD "
+            "callbacks, or RecursionError on deep programs; hardware-layer implementations are exempt by the property's "
+            "assumption (hardware answers in its declared domain)."),
     "C01": ("state-carriage completeness, self-lookup rule, origin-token (alias) propagation and validate-before-commit dominance",
             "Every runtime attribute the interpreter layer writes on AST nodes must be carried by extract_state/apply_state of "
             "its declaring class; lookups of a node id that may be the receiver's own must pass include_self=True; symbolic "
